@@ -265,13 +265,14 @@ class _RealSession:
     real = True
     objs = []
 
-    def __init__(self, prog):
+    def __init__(self, prog, mod=None):
         self.nodes = prog['nodes']
         self.attempts = {}
+        self.mod = mod
 
     def ev(self, kind, run, node, **data):
         data.pop('oid', None)
-        real_emit(kind, run, node, **data)
+        real_emit(kind, run, node, mod=self.mod, **data)
 
     def run_of(self, kwargs):
         inp = find_input(kwargs)
@@ -287,7 +288,7 @@ def _session_for(inst):
     mod = type(inst).__module__
     rs = _real_sessions.get(mod)
     if rs is None:
-        rs = _real_sessions[mod] = _RealSession(PROGS[mod])
+        rs = _real_sessions[mod] = _RealSession(PROGS[mod], mod)
     return rs
 
 
@@ -302,7 +303,13 @@ def _begin(nid, kwargs, inst=None):
     key = (run, nid, repr(sorted(cmp_kwargs(node, kwargs).items(), key=lambda kv: kv[0])))
     attempt = s.attempts.get(key, 0)
     s.attempts[key] = attempt + 1
-    s.ev('body_start', run, nid, attempt=attempt, kwargs=dict(kwargs), ctxrun=RUN.get())
+    uses = getattr(inst, '_rv_uses', 0) if inst is not None else 0
+    if inst is not None:
+        try:
+            inst._rv_uses = uses + 1
+        except Exception:  # noqa: BLE001
+            pass
+    s.ev('body_start', run, nid, attempt=attempt, kwargs=dict(kwargs), ctxrun=RUN.get(), inst_uses=uses)
     return s, node, run, attempt
 
 
